@@ -752,7 +752,7 @@ class CostFunction_GaussApproximation(CostFunction):
         :return: cost function value
         """
         _residuals = model - data
-        if np.all(_residuals == 0):
+        if not self._add_determinant_cost_ga and np.all(_residuals == 0):
             return 0
         _variances = model + total_error**2
         _cost = np.sum(np.square(_residuals) / _variances)
